@@ -67,7 +67,7 @@ class Seam:
                 p2 = a[1] if len(a) > 1 and isinstance(a[1], (str, bytes)) else None
                 if name.endswith("symlink"):
                     p1, p2 = p2, None
-                seam.log.append((w, name, p1, p2, seam.in_rollback))
+                seam.log.append((w, name, p1, p2, seam.in_rollback, k))
                 if seam.fail == (w, k) or seam.fail2 == (w, k):
                     seam.fired.append((w, k, name, p1, p2, seam.in_rollback))
                     raise InjectedEIO(errno.EIO, "injected EIO", p1 if isinstance(p1, str) else None)
@@ -107,7 +107,7 @@ class Seam:
             try:
                 return real(self_, *a, **kw)
             finally:
-                seam.window = prev
+                seam.window = None if window == "apply" else prev
         method.__wrapped__ = real
         method.__name__ = name
         return real, method
@@ -150,8 +150,8 @@ class Seam:
             real_init = cls.__dict__["__init__"]
             seam = self
 
-            def init(self_, *a, __real=real_init, **kw):
-                __real(self_, *a, **kw)
+            def init(self_, *a, _real=real_init, **kw):
+                _real(self_, *a, **kw)
                 if seam.window is None:
                     seam.window = "build"
             self._saved.append((cls, "__init__", real_init))
@@ -160,7 +160,7 @@ class Seam:
             real_fin = cls.__dict__["finalize"]
             seam = self
 
-            def finalize(self_, __real=real_fin):
+            def finalize(self_, _real=real_fin):
                 # only the outermost working-tree transform closes the build window
                 prev = seam.window
                 if prev != "apply" and self_._tree is not None and isinstance(
@@ -168,10 +168,10 @@ class Seam:
                         self_, (bt.TransformPreview, gt.GitTransformPreview)):
                     seam.window = "finalize"
                     try:
-                        return __real(self_)
+                        return _real(self_)
                     finally:
                         seam.window = None
-                return __real(self_)
+                return _real(self_)
             self._saved.append((cls, "finalize", real_fin))
             cls.finalize = finalize
         # rollback marker (classification of double faults only; not an oracle input)
